@@ -92,6 +92,16 @@ def _check_min(it, entries, got_val, label, what):
     return g
 
 
+def on_path_end(it, exc):
+    """a panic (index out of bounds, unwrap on the wrong node kind, arithmetic overflow) or an unbounded loop inside an operation"""
+    from vlib.mirse.interp import LoopBound, Violation
+    kind = "C20:operation-returns" if isinstance(exc, LoopBound) else "C20:no-panic"
+    vals = it.model_values() or {}
+    v = Violation(kind, vals, list(it.trace), f"{it.env.get('witness')}: {exc}")
+    v.witness = it.env.get("witness")
+    it.violations.append(v)
+
+
 def scenario_pq(it, params):
     n = params["nops"]
     ops = []
